@@ -22,12 +22,18 @@ import PrqlModel.Model.Rel
 namespace Props.C01
 open Gen.Split Model.Split Lemmas.Split
 
-/-- T1a: the regenerated split table contains every pair that SQL's clause order forbids in one block -/
-theorem table_sound : tableSoundB = true := by decide
+/-- T1a (partial): the regenerated split table contains every pair that SQL's clause order forbids in one
+block, except the pairs of `knownGap` -/
+theorem table_sound_partial : tableSoundB = true := by decide
+
+/-- T1a (full statement) is FALSE on the unchanged tree: a `Take` followed by a `Distinct`/`DistinctOn` is kept in
+one SELECT although SQL applies DISTINCT before LIMIT (`take 2 | group {a} (take 1)` → `SELECT DISTINCT a … LIMIT 2`) -/
+theorem table_sound_full_counterexample : tableSoundFullB = false := by decide
+theorem take_distinct_not_split : atomicSuffix [.From, .Take, .Distinct] = [.From, .Take, .Distinct] := by decide
 
 /-- T1b: in the atomic segment the scan keeps, no transform is followed by one it must be split from -/
 theorem split_respects_clause_order (p pre mid post : List Kind) (a b : Kind)
-    (h : atomicSuffix p = pre ++ a :: (mid ++ b :: post)) (hb : recorded b = true) :
+    (h : atomicSuffix p = pre ++ a :: (mid ++ b :: post)) (hb : recorded b = true) (hk : knownGap a b = false) :
     mustSplit a b ((recordedOf (mid ++ b :: post)).contains .Aggregate) = false := by
   have hc : Compatible (atomicSuffix p) :=
     scan_compatible p.reverse [] [] rfl (by intro pre a post h; cases pre <;> simp at h)
@@ -38,7 +44,7 @@ theorem split_respects_clause_order (p pre mid post : List Kind) (a b : Kind)
   | false => rfl
   | true =>
     exfalso
-    rcases table_sound_of_B table_sound a b _ hm hb with hany | hin
+    rcases table_sound_of_B table_sound_partial a b _ hm hk hb with hany | hin
     · simp only [splitRequired, hany, if_true] at hs
       have : (recordedOf (mid ++ b :: post)).isEmpty = false := by
         cases hr : recordedOf (mid ++ b :: post) with
